@@ -156,6 +156,19 @@ PROPS["C13"] = {
     ],
 }
 
+PROPS["C17"] = {
+    "mir": "c17",
+    "level": "other",
+    "explanation": "Symbolic data-flow / reachability checking over the real MIR of every parser body (hand-written and peg-generated, ~320 bodies) and of dispatch_command (z3): no reachable unwrap / expect consumes the result of a conversion of input text, and no feasible path of dispatch_command reaches a panic for any Command variant. Candidates are replayed natively through the public parse_command with boundary inputs derived from the converted types; the inputs of repaired findings stay in the replay set.",
+    "trusted_base": MIR_TRUSTED + ["native replay program /verif/native (plain cargo build of /repo with the repository toolchain)"],
+    "outside": [
+        "totality over all byte strings (the PEG parser does not run under Kani: 2 symbolic bytes > 25 min); slice-index and arithmetic panics whose operands are not conversions of input text",
+        "precedence and print/parse round trip (no printer exists for commands), keyword case-insensitivity",
+        "stack depth on pathologically deep nesting (recursive descent; an abort cannot be caught by the replay program)",
+        "super-linear parse time in general: only detected through the fixed nested-parentheses inputs of the native replay set",
+    ],
+}
+
 # Properties not (or not yet) claimed, each with the reason. Entries are removed from here
 # when a check for the property is registered in PROPS.
 NOT_APPLICABLE = {
@@ -165,6 +178,5 @@ NOT_APPLICABLE = {
     "C12": "check not built yet",
     "C14": "check not built yet",
     "C15": "group.rs/matcher.rs operate on HashMap<String, GroupedRowIndices> and HashMap-backed candidate zones; at 3-4 min per hash-map operation under Kani no harness with two events per side finishes, and the two-pointer sweep is a data-dependent loop the MIR path engine cannot summarise",
-    "C17": "check not built yet",
     "C20": "encoders are arrow array builders, serde_json/sonic writers and String formatting over Vec<ScalarValue> batches; none finishes under Kani (serde_json probe exhausted 30 GB) and the equivalence is a data relation, not a guard/ordering fact the MIR engine can state",
 }
